@@ -14,6 +14,21 @@ type TypeInfo struct {
 	FieldDefinitions        map[*ast.Field]*schema.FieldDefinition
 	ExpectedTypes           map[ast.Value]schema.Type
 	DefaultValues           map[ast.Value]interface{}
+
+	// Values nested (at any depth) inside a list or object literal that is given where a scalar
+	// type is expected, e.g. a custom JSON scalar whose LiteralCoercion accepts such literals.
+	// These values have no expected type by design.
+	ScalarLiteralValues map[ast.Value]struct{}
+}
+
+// inScalarLiteral reports whether the values directly inside the list or object literal node,
+// whose (list-unwrapped) expected type is expectedType, belong to a literal for a scalar type.
+func (ti *TypeInfo) inScalarLiteral(node ast.Value, expectedType schema.Type) bool {
+	if _, ok := ti.ScalarLiteralValues[node]; ok {
+		return true
+	}
+	_, ok := expectedType.(*schema.ScalarType)
+	return ok
 }
 
 func namedType(s *schema.Schema, features schema.FeatureSet, name string) schema.NamedType {
@@ -48,6 +63,7 @@ func NewTypeInfo(doc *ast.Document, s *schema.Schema, features schema.FeatureSet
 		FieldDefinitions:        map[*ast.Field]*schema.FieldDefinition{},
 		ExpectedTypes:           map[ast.Value]schema.Type{},
 		DefaultValues:           map[ast.Value]interface{}{},
+		ScalarLiteralValues:     map[ast.Value]struct{}{},
 	}
 
 	var selectionSetScopes []schema.NamedType
@@ -65,6 +81,10 @@ func NewTypeInfo(doc *ast.Document, s *schema.Schema, features schema.FeatureSet
 			if expected, ok := schema.NullableType(ret.ExpectedTypes[node]).(*schema.ListType); ok {
 				for _, value := range node.Values {
 					ret.ExpectedTypes[value] = expected.Type
+				}
+			} else if ret.inScalarLiteral(node, schema.NullableType(ret.ExpectedTypes[node])) {
+				for _, value := range node.Values {
+					ret.ScalarLiteralValues[value] = struct{}{}
 				}
 			}
 		case *ast.ObjectValue:
@@ -90,6 +110,10 @@ func NewTypeInfo(doc *ast.Document, s *schema.Schema, features schema.FeatureSet
 							}
 						}
 					}
+				}
+			} else if ret.inScalarLiteral(node, expectedType) {
+				for _, field := range node.Fields {
+					ret.ScalarLiteralValues[field.Value] = struct{}{}
 				}
 			}
 		case *ast.Directive:
